@@ -55,17 +55,26 @@ TRUSTED = [
     "the abstraction function of the harness (transport calls + API calls + hook log -> automaton events) in "
     "props/c11.py; the deterministic network and its fault flavours (harness/simnet.py, TcpLikeStream here)",
     "modelled, not verified: a stream that meets EOF or an I/O error closes itself and raises EOFError "
-    "(rpyc/core/stream.py: SocketStream/PipeStream read/write); the `on_disconnect` hook returns normally (a hook "
-    "that raises skips the clearing of the tables: user code)",
+    "(rpyc/core/stream.py: SocketStream/PipeStream read/write; exercised, not modelled, by the real-transport runs); "
+    "rpyc/lib/compat.py PollingPoll mask handling (decides whether end-of-stream is noticed at all) likewise",
+    "three facts about the code are measured by harness/gen_proto.py on the live classes and enter the model as "
+    "generated constants with named proof obligations: cleanup_idempotent, cleanup_survives_channel_close_error "
+    "(and C08's decode_guarded); the shapes of close/_cleanup/serve are otherwise tied to the source by the "
+    "behavioural correspondence only",
     "two threads racing close() against a received close: covered as the orders of the events (sequential automaton); "
     "inside close() the flag is set before the hook runs — a second thread or the before_closed callback can "
     "observe `closed` with the hook not yet run; claims are made at API-call boundaries",
 ]
 ASSUMPTIONS = [
     "'reports closed' is read at API-call boundaries (after the closing call has returned)",
-    "an I/O failure surfaces as the stream's EOFError (what rpyc's own streams do); a stream whose poll() raises "
-    "another exception (select.error) ends serve_all through its finally but is not closed inside a client's wait "
-    "loop — outside the statement's 'read or write'",
+    "an I/O failure surfaces as the stream's EOFError (what rpyc's own streams do for read and write). poll() is "
+    "different: Stream.poll may raise select.error/OSError; that ends serve_all through its finally (side closed, "
+    "exercised), but inside a client's wait loop it neither closes the side nor turns into EOFError — the waiter "
+    "gets the OSError and the connection is still open: such a poll failure is NOT an end of the connection and is "
+    "outside the claim although the quantifier names poll",
+    "a user hook (before_closed, on_disconnect) that raises, or a stream whose own close() raises: the side is clean "
+    "all the same, but the request that was blocked when the end was met fails with THAT exception instead of "
+    "EOFError (it replaces EOFError inside serve()'s handler); only 'never a value, never hanging' is claimed there",
     "a failure while a REQUEST is being sent is not 'while serving': the requester gets EOFError and the side is "
     "closed by its next serve()/close(), not by the failed send (theorem fail_send_request_does_not_close)",
 ]
@@ -90,7 +99,7 @@ class LStream(MemStream):
     def write(self, data):
         self._hook("write", data)
         if self._closed or self.gone or (self.peer._closed and not self.accepts_write_after_peer_close):
-            self.close()
+            LStream.close(self)
             raise EOFError("stream closed")
         self.peer.inbox += data
         self.net.record(self.name, bytes(data))
@@ -101,7 +110,7 @@ class LStream(MemStream):
             if self._closed:
                 raise EOFError("stream has been closed")
             if self.peer._closed or self.gone:
-                self.close()
+                LStream.close(self)
                 raise EOFError("connection closed by peer")
             self.net.block(self.name, None, want=count)
         data = bytes(self.inbox[:count])
@@ -123,19 +132,36 @@ class LStream(MemStream):
         return bool(self.inbox) or self.peer._closed or self.gone
 
 
+class StreamCloseError(OSError):
+    pass
+
+
+class BadCloseStream(LStream):
+    """a stream whose own close() raises, once (an unguarded sock.close() / tun.close() / incoming.close() failing)"""
+    close_raised = False
+
+    def close(self):
+        LStream.close(self)
+        if not self.close_raised:
+            self.close_raised = True
+            raise StreamCloseError(5, "close failed")
+
+
 class TcpLikeStream(LStream):
     """a write after the peer has closed is accepted (buffered), like TCP before the reset arrives"""
     accepts_write_after_peer_close = True
 
 
 class LNet(Net):
-    def __init__(self, tcp_like=False):
+    def __init__(self, tcp_like=False, bad_close=()):
         Net.__init__(self)
         self.tcp_like = tcp_like
+        self.bad_close = tuple(bad_close)
 
     def stream_pair(self, a="A", b="B"):
         cls = TcpLikeStream if self.tcp_like else LStream
-        sa, sb = cls(self, a), cls(self, b)
+        sa = (BadCloseStream if a in self.bad_close else cls)(self, a)
+        sb = (BadCloseStream if b in self.bad_close else cls)(self, b)
         sa.peer, sb.peer = sb, sa
         self.streams[a], self.streams[b] = sa, sb
         return sa, sb
@@ -241,6 +267,7 @@ class Harness(object):
         w = WORKLOADS[workload]
         self.handshake_ok = {"A": False, "B": False}
         self.hook_raises = {"A": bool(w.get("hook_raises_a")), "B": bool(w.get("hook_raises_b"))}
+        self.chan_close_raises = {"A": bool(w.get("bad_close_a")), "B": bool(w.get("bad_close_b"))}
         self.classic = bool(w.get("classic"))
 
     # ------------------------------------------------------------------ logging helpers used by services / workloads
@@ -267,7 +294,7 @@ class Harness(object):
             return "eof"
         if type(ex).__name__ in ("AsyncResultTimeout", "TimeoutError"):
             return "timeout"
-        if isinstance(ex, (HookError, DisconnectBoom)):
+        if isinstance(ex, (HookError, DisconnectBoom, StreamCloseError)):
             return "closeexc"        # what close() raised in place of EOFError: a user hook's own exception
         if hasattr(ex, "_remote_tb"):
             return "v%d" % VAL_EXC
@@ -395,7 +422,7 @@ class Harness(object):
                 ent["faulted"] = True
                 ent["ok"] = False
                 ent["eof"] = True
-            stream.close()
+            LStream.close(stream)
             raise EOFError("injected I/O error")
         if f["how"] == "cut" and info["op"] == "read" and info.get("header"):
             del stream.inbox[f["at"]:]
@@ -417,7 +444,8 @@ class Harness(object):
     # ------------------------------------------------------------------ the run
     def execute(self):
         w = WORKLOADS[self.workload]
-        self.net = net = LNet(tcp_like=w.get("tcp_like", False))
+        self.net = net = LNet(tcp_like=w.get("tcp_like", False),
+                              bad_close=[sd for sd in "AB" if self.chan_close_raises[sd]])
         old_gc = gc.isenabled()
         gc.disable()
         try:
@@ -770,6 +798,11 @@ WORKLOADS = {
     "hook_raises_nested": dict(run=w_nested, hook_raises_a=True, hook_raises_b=True),
     "hook_raises_close_in_callback": dict(run=w_close_in_callback_ref, hook_raises_a=True),
     "hook_raises_peer_closes": dict(run=w_peer_closes, hook_raises_b=True),
+    # a stream whose own close() raises: the hook still runs once and everything is still released
+    "stream_close_raises_sync": dict(run=w_sync, bad_close_a=True),
+    "stream_close_raises_pending": dict(run=w_pending, bad_close_a=True, bad_close_b=True),
+    "stream_close_raises_peer_closes": dict(run=w_peer_closes, bad_close_a=True, bad_close_b=True),
+    "stream_close_and_hook_raise": dict(run=w_nested, bad_close_a=True, hook_raises_a=True),
     # classic sides (MasterService + SlaveService): the handshake of on_connect() is itself exposed to every fault
     "classic_handshake": dict(run=w_classic, classic=True),
 }
@@ -978,7 +1011,7 @@ def parse_model(line):
                 blocked=lst(m.group(10)), out=lst(m.group(11)), raised=lst(m.group(12)))
 
 
-RAISED_NAME = {"HookError": "user", "AttributeError": "attr", "DisconnectBoom": "hook"}
+RAISED_NAME = {"HookError": "user", "AttributeError": "attr", "DisconnectBoom": "hook", "StreamCloseError": "channel"}
 
 
 def impl_view(h, side, n, ids):
@@ -1066,7 +1099,7 @@ def run_case(workload, fault):
     lines, meta = [], []
     for side in "AB":
         toks, snap1, ids = abstract(h, side)
-        op = "life runhook " if h.hook_raises[side] else "life run "
+        op = "life runwith %s%s " % ("H" if h.hook_raises[side] else "-", "C" if h.chan_close_raises[side] else "-")
         lines.append(op + " ".join(toks[:snap1]))
         meta.append((side, 1, ids))
         lines.append(op + " ".join(toks))
@@ -1076,14 +1109,14 @@ def run_case(workload, fault):
 
 def correspondence(ctx):
     c = Corr()
-    c.rule = ("17 workloads x (fault-free run + a fault at every individual transport call of that run, two flavours: I/O "
+    c.rule = ("%d workloads x (fault-free run + a fault at every individual transport call of that run, two flavours: I/O "
               "error at this end / the peer vanishing; + poll() raising OSError at every base-level poll of serve_all) + cuts at byte offsets inside the packet at every header read "
               "(quick: header boundaries, first/middle/last body bytes + 2 seeded offsets of every packet; thorough: every "
               "offset of every packet). "
               "Compared per side, after the workload and after the after-phase (wait for everything pending, two new "
               "requests, close twice): closed, hook runs, tables empty (when closed), outcome of every request, what "
               "close() raised, nobody blocked, no deadlock. Non-trivial = a fault fired or a close happened; distinct = "
-              "distinct (workload, faulted op, faulted side, flavour, final flags and outcome classes).")
+              "distinct (workload, faulted op, faulted side, flavour, final flags and outcome classes).") % len(WORKLOADS)
     deadline = time.time() + ctx.budget(50, 800)
     thorough = ctx.tier == "thorough"
     rng = Rng(ctx.seed).fork("c11")
@@ -1137,8 +1170,10 @@ def correspondence(ctx):
                 finals.append(re.sub(r"\d+:", "", impl))
                 pm = parse_model(outs[base + j])
                 if pm:
-                    for tok in lines[base + j].split()[2:]:
-                        c.count("model-event:" + re.match(r"[a-z]+", tok).group(0))
+                    for tok in lines[base + j].split()[3:]:
+                        m = re.match(r"[a-z]+", tok)
+                        if m:
+                            c.count("model-event:" + m.group(0))
         if h.hang:
             c.count("hang")
         for nte in h.notes:
@@ -1847,6 +1882,9 @@ def oracle(h):
                    "C11:serve-all-exit-leaves-open" if "serve_all" in reason else "C11:not-closed")
             return ("side %s: %s, but closed == False after the workload (hook runs %d)" % (side, reason, s1["hooks"]), sig)
         for n, s in ((1, s1), (2, s2)):
+            if "AttributeError" in s["close_results"]:
+                return ("side %s: close() raised AttributeError (a second _cleanup of the same connection)" % side,
+                        "C11:close-raises-attributeerror")
             if s["hooks"] > 1:
                 return ("side %s: disconnect hook ran %d times" % (side, s["hooks"]), "C11:hook-twice")
             if s["closed"] and s["hooks"] != 1:
